@@ -1471,3 +1471,152 @@ def deliveries(prog):
                                                          'a list that holds the queued records in %s order' % ('queue' if s == 1 else 'reversed'))
                     out.append((v, c, take * s, how))
     return out
+
+
+# --------------------------------------------------------------------------
+# the key of a node of the pid set (R-C11h)
+# --------------------------------------------------------------------------
+
+TREE_LINKS = (('iv_avl_tree', 'root'), ('iv_avl_node', 'left'), ('iv_avl_node', 'right'))
+
+
+def pid_store(v, e):
+    """the alias group of the interest X of a store to X->pid (also through a cached address of the field), else None;
+    ANALYSIS-BROKEN when the key of an interest that cannot be identified is written"""
+    if e['ev'] != 'store' or lvalue_steps(e['lhs'])[:1] != [PID]:
+        return None
+    l = lval(e['lhs'])
+    g = v.group_of(l['base']) if isinstance(l, dict) and l.get('k') == 'member' else None
+    if g is None:
+        raise AnalysisBroken('%s: store to the pid of an interest that cannot be identified (%s)' % (e.get('loc'), canon(e['lhs'])))
+    return g
+
+
+def _from_tree(e):
+    """a local is (re)defined from the links of the tree (`an = TREE.root`, `an = an->left`): the group it belongs to
+    designates a node that is in the set"""
+    if e['ev'] != 'store' or e.get('op') != '=' or 'rhs' not in e:
+        return False
+    l = lval(e['lhs'])
+    if not (isinstance(l, dict) and l.get('k') == 'var'):
+        return False
+    return any(n.get('k') == 'member' and last_member(n) in TREE_LINKS for n in walk(e['rhs']))
+
+
+def key_changes(v, lock):
+    """May-analysis of one inlined root.  Facts: ('L', grp) the interest of alias group grp is in the pid set (the root
+    inserted it, or reached it by walking the tree) and was not deleted since; ('D', grp, loc) its pid field was
+    stored to at loc while it was in the set and it was not deleted / filed anew since.  A 'D' fact is a violation at
+    every point where the order of the set is relied upon by anybody: the set's lock is released, the tree is walked
+    from its root, a node is inserted (the comparator reads the keys on the way down), the root returns.
+    Returns (number of pid stores, number of insertions, [(store loc, loc of the point, what)])."""
+    g = v.g
+
+    def tr(e, S):
+        if v.is_insert(e):
+            grp = v.node_group(e['args'][1])
+            return frozenset(f for f in S if not (f[0] == 'D' and f[1] == grp)) | {('L', grp)}
+        if v.is_delete(e):
+            grp = v.node_group(e['args'][1])
+            return frozenset(f for f in S if f[1] != grp)
+        if _from_tree(e):
+            return S | {('L', v.group(lval(e['lhs'])['name']))}
+        grp = pid_store(v, e)
+        if grp is not None and ('L', grp) in S:
+            return S | {('D', grp, e['loc'])}
+        return S
+    instate, ev_in = forward(g, frozenset(), tr, lambda a, b: a | b)
+    viol, nst, nins = [], 0, 0
+    for blk in g.blocks.values():
+        for i, e in enumerate(blk.events):
+            S = ev_in.get((e['_b'], e['_i']))
+            if pid_store(v, e) is not None:
+                nst += 1
+            if v.is_insert(e):
+                nins += 1
+            if not S:
+                continue
+            what = None
+            if lock is not None and unlocks(e, lock):
+                what = 'the lock of the set is released'
+            elif e['ev'] == 'load' and last_member(e['e']) == TREE_LINKS[0]:
+                what = 'the tree is searched'
+            elif v.is_insert(e):
+                what = 'a node is inserted (compared against the nodes on its way down)'
+            if what:
+                mine = v.node_group(e['args'][1]) if v.is_insert(e) else None
+                for f in sorted(S, key=str):
+                    if f[0] == 'D' and f[1] != mine:
+                        viol.append((f[2], e['loc'], what))
+    for f in sorted(instate.get(g.exit) or (), key=str):
+        if f[0] == 'D':
+            viol.append((f[2], v.root.loc, 'the function returns'))
+    return nst, nins, viol
+
+
+def fork_value_flow(v):
+    """from_fork(x): the expression x is the value fork() returned, through copies of locals and fields of records that
+    are not interests (flow-insensitive closure, as for the reaped pid in R-C11.cmp)"""
+    rg, rf = set(), set()
+    stores = [e for e in v.g.events() if e['ev'] == 'store' and e.get('op') == '=' and 'rhs' in e]
+
+    def from_fork(x):
+        x = strip(x)
+        if isinstance(x, dict) and x.get('k') == 'load':
+            x = strip(x['e'])
+        if not isinstance(x, dict):
+            return False
+        if x.get('k') == 'call':
+            return x.get('callee') == 'fork'
+        if x.get('k') == 'assign' and x.get('op') == '=':
+            return from_fork(x.get('r')) or from_fork(x.get('l'))
+        if x.get('k') == 'var':
+            return v.group(x['name']) in rg
+        if x.get('k') == 'member':
+            return last_member(x) in rf
+        return False
+    for _ in range(6):
+        n0 = (len(rg), len(rf))
+        for e in stores:
+            if not from_fork(e['rhs']):
+                continue
+            l = lval(e['lhs'])
+            if l.get('k') == 'var':
+                rg.add(v.group(l['name']))
+            elif l.get('k') == 'member' and last_member(l) != PID and l.get('record') != REC:
+                rf.add(last_member(l))
+        if (len(rg), len(rf)) == n0:
+            break
+    return from_fork
+
+
+def keyed_by_fork(v, forks):
+    """Must-analysis from the fork() call(s) of a root: the set of interests (alias groups) whose pid field holds the
+    value the most recent fork() returned.  [(insertion event reachable from a fork, ok)]"""
+    g = v.g
+    from_fork = fork_value_flow(v)
+
+    def tr(e, S):
+        if v.is_fork(e):
+            return frozenset()
+        if S is None:
+            return None
+        grp = pid_store(v, e)
+        if grp is not None:
+            return (S | {grp}) if (e.get('op') == '=' and 'rhs' in e and from_fork(e['rhs'])) else (S - {grp})
+        return S
+
+    def jn(a, b):
+        if a is None:
+            return b
+        if b is None:
+            return a
+        return a & b
+    _, ev_in = forward(g, None, tr, jn)
+    out = []
+    for e in g.events():
+        if v.is_insert(e):
+            S = ev_in.get((e['_b'], e['_i']))
+            if S is not None:
+                out.append((e, v.node_group(e['args'][1]) in S))
+    return out
